@@ -956,3 +956,159 @@ Proof.
   simpl. unfold settle in *. simpl. destruct (first_enabled l (arr l)) as [a|]; [|exists []; reflexivity].
   destruct (IH (step_gen true l a)) as [tr Htr]. exists (a :: tr). exact Htr.
 Qed.
+
+(* ---------- delayed goroutines (the harness parks a cancelled waiter between the select of
+   acquireEndpoint and cancelEndpoint) ---------- *)
+Lemma unheld_nil rs : unheld [] rs = rs.
+Proof. unfold unheld. induction rs as [|x rs IH]; simpl; [reflexivity|f_equal; exact IH]. Qed.
+
+Lemma settle_hold_nil fuel l : settle_hold fuel [] l = settle fuel l.
+Proof.
+  revert l. unfold settle_hold, settle. induction fuel as [|f IH]; intros l; [reflexivity|].
+  simpl. rewrite unheld_nil. destruct (first_enabled l (arr l)); [apply IH|reflexivity].
+Qed.
+
+(* with some goroutines held back the scheduler still only performs actions of the model ... *)
+Lemma settle_hold_is_run fuel hold l : exists tr, settle_hold fuel hold l = run l tr.
+Proof.
+  revert l. induction fuel as [|f IH]; intros l; [exists []; reflexivity|].
+  unfold settle_hold in *. simpl. destruct (first_enabled l (unheld hold (arr l))) as [a|]; [|exists []; reflexivity].
+  destruct (IH (step_gen true l a)) as [tr Htr]. exists (a :: tr). exact Htr.
+Qed.
+
+(* ... and none of a held goroutine *)
+Definition actor (a : act) : N :=
+  match a with
+  | Arrive r _ | Cancel r | Finish r | SeeGrant r | SeeCancel r | CancelSec r | ReleaseEp r
+  | AcquireTot r | TotSeeCancel r | TotSeeReady r | ReleaseTot r => r
+  end.
+Lemma internal_actor l r a : internal l r = Some a -> actor a = r.
+Proof.
+  unfold internal. destruct (st l r); try discriminate; try (destruct (cancelled l r); try discriminate);
+    intros H; injection H as <-; reflexivity.
+Qed.
+Lemma first_enabled_actor l rs a : first_enabled l rs = Some a -> In (actor a) rs.
+Proof.
+  induction rs as [|x rs IH]; simpl; [discriminate|].
+  destruct (internal l x) eqn:E.
+  - intros H; injection H as <-. left. symmetry. now apply internal_actor with (l := l).
+  - intros H. right. now apply IH.
+Qed.
+Lemma settle_hold_skips fuel hold l :
+  exists tr, settle_hold fuel hold l = run l tr /\ forall a, In a tr -> mem (actor a) hold = false.
+Proof.
+  revert l. induction fuel as [|f IH]; intros l; [exists []; split; [reflexivity|intros a []]|].
+  unfold settle_hold in *. simpl. destruct (first_enabled l (unheld hold (arr l))) as [a|] eqn:E;
+    [|exists []; split; [reflexivity|intros a []]].
+  destruct (IH (step_gen true l a)) as (tr & Htr & Hno). exists (a :: tr). split; [exact Htr|].
+  intros b [<-|Hb]; [|now apply Hno].
+  apply first_enabled_actor in E. unfold unheld in E. apply filter_In in E. destruct E as [_ E].
+  now apply negb_true_iff in E.
+Qed.
+
+(* ---------- clause 4, the delayed waiter.  cancelEndpoint concludes from "my channel is not in
+   the queue" that the request was admitted in the meantime and releases a slot.  In every
+   reachable state that conclusion is right: at the section of cancelEndpoint the channel is
+   queued exactly when the request owns no slot ---------- *)
+Lemma cancel_section_inference limit epl tr r :
+  let l := run (new_lim limit epl) tr in
+  st l r = CancelQ \/ st l r = CancelG ->
+  exists cnt q, tab l (keyof l r) = Some (cnt, q) /\
+    cnt = Z.of_nat (length (selK holds_ep (keyof l) (st l) (arr l) (keyof l r))) /\
+    q = selK waits_ep (keyof l) (st l) (arr l) (keyof l r) /\
+    (In r q <-> st l r = CancelQ) /\ (~ In r q <-> st l r = CancelG) /\
+    (st l r = CancelG -> In r (selK holds_ep (keyof l) (st l) (arr l) (keyof l r))).
+Proof.
+  intros l Hs. pose proof (reach_inv limit epl tr) as HI. fold l in HI. destruct HI as (HA & HE & _).
+  assert (Hin : In r (arr l)) by (apply HA; destruct Hs as [-> | ->]; discriminate).
+  destruct Hs as [Hs|Hs].
+  - destruct (E_waiter_entry _ _ _ _ _ r HE Hin) as (cnt & q & Htb & Hq); [now rewrite Hs|].
+    destruct (E_entry_queue _ _ _ _ _ _ _ _ HE Htb) as (Eq & Ec & _).
+    exists cnt, q. repeat split; try assumption; try tauto; try congruence.
+  - destruct (E_holder_entry _ _ _ _ _ r HE Hin) as (cnt & q & Htb & Hq); [now rewrite Hs|].
+    destruct (E_entry_queue _ _ _ _ _ _ _ _ HE Htb) as (Eq & Ec & _).
+    exists cnt, q. repeat split; try assumption; try tauto; try congruence.
+    intros _. apply selK_in. rewrite Hs. tauto.
+Qed.
+
+(* a cancelled waiter that was handed a slot while it was delayed: its cancelEndpoint section
+   changes nothing but its own program counter, and the releaseEndpoint that follows passes on
+   exactly that slot -- to the head of the queue if somebody waits (the slot count stays), else
+   the count drops by one (entry deleted at 0); the accounting invariant holds afterwards *)
+Lemma cancel_granted_passes_own_slot limit epl tr r :
+  let l := run (new_lim limit epl) tr in
+  st l r = CancelG ->
+  let l1 := step l (CancelSec r) in
+  let l2 := step l1 (ReleaseEp r) in
+  let k := keyof l r in
+  st l1 r = RelEp ErrEp /\ (forall x, x <> r -> st l1 x = st l x) /\ tab l1 = tab l /\
+  held l1 = held l /\ semq l1 = semq l /\
+  st l2 r = Done ErrEp /\ held l2 = held l /\ semq l2 = semq l /\
+  (forall k', k' <> k -> tab l2 k' = tab l k') /\
+  (exists cnt q, tab l k = Some (cnt, q) /\ 1 <= cnt /\ ~ In r q /\
+     match q with
+     | w :: rest => tab l2 k = Some (cnt, rest) /\ st l2 w = grant_ep (st l w) /\
+                    (forall x, x <> r -> x <> w -> st l2 x = st l x)
+     | [] => tab l2 k = (if cnt - 1 =? 0 then None else Some (cnt - 1, [])) /\
+             (forall x, x <> r -> st l2 x = st l x)
+     end) /\
+  Inv l2.
+Proof.
+  intros l Hs l1 l2 k.
+  pose proof (reach_inv limit epl tr) as HI. fold l in HI.
+  destruct (cancel_section_inference limit epl tr r (or_intror Hs)) as (cnt & q & Htb & Hc & Hq & _ & Hnq & Hown).
+  fold l in Htb, Hc, Hq, Hnq, Hown. fold k in Htb.
+  assert (Hnin : ~ In r q) by (now apply Hnq).
+  assert (Hm : mem r q = false).
+  { destruct (mem r q) eqn:E; [|reflexivity]. apply mem_in in E. contradiction. }
+  assert (E1 : l1 = set_st l r (RelEp ErrEp)).
+  { unfold l1, step, step_gen. rewrite Hs. fold k. rewrite Htb, Hm. reflexivity. }
+  assert (Hcnt : 1 <= cnt).
+  { specialize (Hown Hs). destruct (selK holds_ep (keyof l) (st l) (arr l) (keyof l r)); [destruct Hown|].
+    rewrite Hc. simpl length. lia. }
+  assert (Hst1 : st l1 r = RelEp ErrEp) by (rewrite E1; simpl; apply upd_eq).
+  assert (Hk1 : keyof l1 r = k) by (rewrite E1; reflexivity).
+  assert (E2 : l2 = set_st (release_ep l1 k) r (Done ErrEp)).
+  { unfold l2, step, step_gen. rewrite Hst1, Hk1. reflexivity. }
+  assert (Htb1 : tab l1 k = Some (cnt, q)) by (rewrite E1; exact Htb).
+  split; [exact Hst1|]. split; [intros x Hx; rewrite E1; simpl; now apply upd_neq|].
+  split; [rewrite E1; reflexivity|]. split; [rewrite E1; reflexivity|]. split; [rewrite E1; reflexivity|].
+  split; [rewrite E2; simpl; apply upd_eq|].
+  assert (Hrel : release_ep l1 k =
+     match q with
+     | w :: rest => with_st (with_tab l1 (upd (tab l1) k (Some (cnt, rest)))) (upd (st l1) w (grant_ep (st l1 w)))
+     | [] => if cnt - 1 =? 0 then with_tab l1 (upd (tab l1) k None) else with_tab l1 (upd (tab l1) k (Some (cnt - 1, [])))
+     end).
+  { unfold release_ep. rewrite Htb1. destruct q; reflexivity. }
+  split; [rewrite E2, Hrel, E1; destruct q; [destruct (cnt - 1 =? 0)|]; reflexivity|].
+  split; [rewrite E2, Hrel, E1; destruct q; [destruct (cnt - 1 =? 0)|]; reflexivity|].
+  split.
+  { intros k' Hk'. rewrite E2, Hrel, E1. destruct q; [destruct (cnt - 1 =? 0)|]; simpl; now apply upd_neq. }
+  split.
+  { exists cnt, q. split; [exact Htb|]. split; [exact Hcnt|]. split; [exact Hnin|].
+    destruct q as [|w rest].
+    - split.
+      + rewrite E2, Hrel, E1. destruct (cnt - 1 =? 0); simpl; apply upd_eq.
+      + intros x Hx. rewrite E2, Hrel, E1. destruct (cnt - 1 =? 0); simpl; now rewrite !upd_neq.
+    - assert (Hwr : w <> r) by (intros ->; apply Hnin; now left).
+      split; [rewrite E2, Hrel, E1; simpl; apply upd_eq|]. split.
+      + rewrite E2, Hrel, E1. simpl. rewrite (upd_neq _ r _ w Hwr), upd_eq. now rewrite (upd_neq _ r _ w Hwr).
+      + intros x Hx Hxw. rewrite E2, Hrel, E1. simpl. now rewrite !upd_neq. }
+  unfold l2, l1. now repeat apply step_inv.
+Qed.
+
+(* ---------- why releaseEndpoint must hand the slot to the head of the queue even when that
+   waiter's context is already done: the variant that skips such waiters (Model.step_skip; the
+   rest of the code unchanged) breaks the endpoint limit.  Limit 1: request 0 in flight, 1 and 2
+   queued, 1 is cancelled but its goroutine has not reacted yet, 0 finishes: 2 gets the slot;
+   then 1 runs cancelEndpoint, does not find its channel, releases "its" slot: the entry is
+   deleted while 2 is in flight, and request 3 is admitted next to it. ---------- *)
+Lemma skip_cancelled_refuted :
+  exists tr, let l := fold_left step_skip tr (new_lim 0 1) in
+    count_where (in_flight_on l 0%N) (arr l) > eplimit l.
+Proof.
+  exists [Arrive 0 0; SeeGrant 0; AcquireTot 0; Arrive 1 0; Arrive 2 0; Cancel 1; Finish 0; ReleaseTot 0;
+          ReleaseEp 0; SeeGrant 2; AcquireTot 2; SeeCancel 1; CancelSec 1; ReleaseEp 1;
+          Arrive 3 0; SeeGrant 3; AcquireTot 3]%N.
+  vm_compute. reflexivity.
+Qed.
